@@ -327,6 +327,38 @@ def replay_keys_filter_report(a):
     return {"reproduced": bool(out), "mismatches": out, "data": data}
 
 
+def replay_capture_before_use(a):
+    """a key-capture variable used (as an interpolated key) BEFORE the query that captures it has run: an evaluation error (non-zero,
+    not 19), in every arrangement; used after the capture: the documented verdict"""
+    import os, shutil, subprocess, tempfile
+    exe = a.cli()
+    if not exe:
+        return {"reproduced": False, "note": "native build failed"}
+    d = tempfile.mkdtemp(prefix="cfnverif_replay_")
+    out = []
+    try:
+        open(os.path.join(d, "d.json"), "w").write('{"Resources": {"a": {"Type": "T", "v": 1}, "b": {"Type": "U", "v": 2}}, "Meta": {"a": {"ok": true}}}\n')
+        capture = "Resources[ ids | Type == 'T' ] !empty"
+        use = "Meta.%ids.ok exists"
+        arrangements = {
+            "capture first (lines)": (f"rule r {{\n  {capture}\n  {use}\n}}\n", 0),
+            "use first (lines)": (f"rule r {{\n  {use}\n  {capture}\n}}\n", "error"),
+            "use first (rules)": (f"rule u {{\n  {use}\n}}\nrule c {{\n  {capture}\n}}\n", "error"),
+            "capture first (rules)": (f"rule c {{\n  {capture}\n}}\nrule u {{\n  {use}\n}}\n", 0),
+        }
+        for label, (text, want) in arrangements.items():
+            open(os.path.join(d, "r.guard"), "w").write(text)
+            pr = subprocess.run([exe, "validate", "-r", os.path.join(d, "r.guard"), "-d", os.path.join(d, "d.json"), "--show-summary", "none"],
+                                capture_output=True, text=True, timeout=60)
+            ok = (pr.returncode == 0) if want == 0 else (pr.returncode not in (0, 19))
+            if not ok:
+                out.append({"arrangement": label, "rules_file": text, "expected": "exit 0" if want == 0 else "an evaluation error (the variable does not exist yet)",
+                            "observed_exit": pr.returncode})
+        return {"reproduced": bool(out), "mismatches": out}
+    finally:
+        shutil.rmtree(d, ignore_errors=True)
+
+
 def q_dispatch(a):
     QP = enum_variants(a.src, "rules/exprs.rs", "QueryPart")
     PV = enum_variants(a.src, "rules/path_value.rs", "PathAwareValue")
@@ -527,6 +559,7 @@ def q_dispatch(a):
                       extra_models={"parse": lambda ex, av: ex.fresh_enum("Result", 2, "pari", {"Ok": ex.opq(), "Err": ex.opq()}),
                                     "variable": mirexec.m_option, "next": mirexec.m_iter_next, "into_iter": mirexec.m_new_iter, "iter": mirexec.m_new_iter})
     bad, nun = [], 0
+    ebad, nerr = [], 0
     for p in ex.paths:
         if p.outcome != "return":
             continue
@@ -537,6 +570,19 @@ def q_dispatch(a):
                 if not same(e[2][0], h["cur"]):
                     probs.append(f"{e[1]} is given something other than the map being searched as the value reached")
         bad.append(f"(and {pc_term(p.pc)} {in_range(ex, h)})" if probs else "false")
+        # a variable that cannot be resolved (not defined yet, e.g. a key capture used before its capturing query ran) is an ERROR of the
+        # query, not an ordinary unresolved value: C04 is silent about orderings that are errors, it is not about orderings that run
+        r_ = p.ret
+        for e in calls(p, "resolve_variable"):
+            if e[3][0] == "enum" and r_ is not None and r_[0] == "enum":
+                nerr += 1
+                ebad.append(f"(and {pc_term(p.pc)} {in_range(ex, h)} (= {e[3][2]} 1) (not (= {r_[2]} 1)))")
+    ce = a.discharge("query/dispatch/key-variable/map/resolution-error-is-an-error", ex, ebad,
+                     f"`.%var` on a map ({nerr} variable resolutions over all paths): when the variable cannot be resolved the query fails with that error")
+    if ce:
+        ce["replay"] = replay_capture_before_use(a)
+        ce["reproduced"] = ce["replay"].get("reproduced", False)
+        a.candidates.append(ce)
     def finish_vk(name, ex, bad, describe):
         c = a.discharge("query/dispatch/" + name, ex, bad, describe)
         if c:
@@ -989,6 +1035,6 @@ def replay_queries(a):
     return a.replay_cases(exe, data, cases)
 
 
-SITES = {"C09": [q_dispatch], "C01": [q_accumulate, q_accumulate_map, q_retrieve_index, q_map_resolved, q_filter_delegate, q_dispatch, q_variable_head, q_unresolved_value],
+SITES = {"C09": [q_dispatch], "C04": [q_dispatch], "C01": [q_accumulate, q_accumulate_map, q_retrieve_index, q_map_resolved, q_filter_delegate, q_dispatch, q_variable_head, q_unresolved_value],
          "C08": [q_dispatch],
          "C15": [q_variable_head], "C10": [q_unresolved_value, q_dispatch]}
